@@ -154,6 +154,9 @@ pub fn run(tape: &[u8], cx: &Cx) -> Outcome {
     let wrappers = t.bool_p(50);
     let atoms = Atoms::decode(&mut t, 5);
     let ops = gen_ops(&mut t, &atoms, wrappers);
+    // a third of the local histories are "lazy": new terms are not examined when they are built (no
+    // derivative is taken in between), only by the operations of the history and at its end
+    let lazy = !wrappers && t.bool_p(85);
     let mut o = Outcome::default();
     o.digest = fnv(format!("{}{:?}{:?}", wrappers, atoms.landmarks, ops).as_bytes());
     if cx.render {
@@ -185,7 +188,10 @@ pub fn run(tape: &[u8], cx: &Cx) -> Outcome {
         }
         return o;
     }
-    let res = catch(|| interpret_local(&atoms, &ops));
+    if lazy {
+        o.tag("lazy-history");
+    }
+    let res = catch(|| interpret_local(&atoms, &ops, lazy));
     match res {
         Ok(sub) => {
             o.evals += sub.evals;
@@ -208,7 +214,7 @@ pub fn run(tape: &[u8], cx: &Cx) -> Outcome {
     o
 }
 
-fn interpret_local(atoms: &Atoms, ops: &[Op]) -> Outcome {
+fn interpret_local(atoms: &Atoms, ops: &[Op], lazy: bool) -> Outcome {
     let mut o = Outcome::default();
     let mut m = ReManager::new();
     let k = atoms.len();
@@ -249,6 +255,9 @@ fn interpret_local(atoms: &Atoms, ops: &[Op]) -> Outcome {
                     o.fail("C07/complement-fixed-point", format!("{}: complement(r{}) is r{} itself", when, idx, idx));
                     return o;
                 }
+                if lazy {
+                    continue;
+                }
                 // language of the new term (history so far must not matter)
                 if !check_language(&mut m, atoms, &slots[idx], idx, &when, &mut o) {
                     return o;
@@ -285,6 +294,14 @@ fn interpret_local(atoms: &Atoms, ops: &[Op]) -> Outcome {
                 allocs += 1;
                 heavy_at.push(allocs);
                 slots.push(Slot { term, dfa, origin: None, born: allocs });
+                // complement is an involution without fixed points on derivative terms too
+                let c2 = m.complement(term);
+                let cc = m.complement(c2);
+                o.evals += 2;
+                if ptr(cc) != ptr(term) || ptr(c2) == ptr(term) {
+                    o.fail(if ptr(c2) == ptr(term) { "C07/complement-fixed-point" } else { "C07/complement-not-involution" }, format!("{}: on the derivative term {}", when, term));
+                    return o;
+                }
             }
             Op::StrDeriv(kk, s) => {
                 let term = m.str_derivative(slots[*kk].term, &smt(s));
